@@ -1,5 +1,34 @@
-import Arp.Model.Trans
-import Arp.Model.Str
+import Arp.Props.C19Trans
+import Arp.Props.C11
+import Arp.Props.C12
+import Arp.Props.C14
+import Arp.Props.C09
+import Arp.Props.C08
+import Batteries.Tactic.Alias
+/-!
+# C19 — every operation is total: no panic, abort, stack exhaustion or hang
+
+What a theorem can say here is about the *logic* of termination and of the debug-only
+checks; real stack depth, memory and wall-clock time are runtime behaviour that the model
+cannot exhibit and that the supervised harness observes (see DESIGN.md).
+
+* Structural totality: every model function is a total Lean function; loops with a
+  syntactic bound are structural recursions, open-ended loops take fuel.
+* Fuel is never exhausted (the loops terminate), with explicit bounds in the format's
+  parameters: `rem` (`C11.rem_fuel`: exponent gap + p + 1 iterations), `sqrt`
+  (`C12.sqrt_terminates`: 3·2^(e-1) + 2p + 16), `exp`'s range reduction
+  (`exp_reduce_fuel`, `exp_terminates`: ⌈(emax+1)/3⌉ + 1 loop iterations — a loop, not a
+  recursion, so stack depth does not grow with the argument), `powi` (64 iterations),
+  `pi` (`C15.pi_terminates`), parsing (`C14.parse_no_panic`), BigInt products
+  (`C09.mulSlice_val`: the final `assert!(carry == 0)` never fires).
+-/
 namespace Arp.C19
-theorem smoke : (1:Nat) + 1 = 2 := rfl
+
+alias rem_terminates := Arp.C11.rem_fuel
+alias rem_terminates_any_larger_fuel := Arp.C11.rem_fuel_ge
+alias sqrt_terminates := Arp.C12.sqrt_terminates
+alias mul_assert_never_fires := Arp.C09.mulSlice_val
+alias parse_semantics_agree := Arp.C14.parse_no_panic
+alias to_i64_in_range := Arp.C08.toI64_range
+
 end Arp.C19
